@@ -157,9 +157,10 @@ pub fn replay(args: &[String]) -> i32 {
         let k = arr(&case["op"]["s"]).len();
         if case["op"]["name"] == "push_many" && k > 0 && vals.len() + k > max && vals.len() <= max {
             for big_max in [usize::MAX, usize::MAX - 1, usize::MAX / 2 + 1] {
-                n += 1;
                 let excess = vals.len() + k - max;
-                let huge_len = (big_max - vals.len()).saturating_add(excess).max(big_max - vals.len());
+                // announced length = room + excess; only if such a length exists in usize
+                let Some(huge_len) = (big_max - vals.len()).checked_add(excess) else { continue };
+                n += 1;
                 let observed = guarded(|| {
                     let mut st = build(&vals, big_max);
                     let r = match st.push_many((0..huge_len).map(|_| 7u8)) {
